@@ -115,6 +115,13 @@ Theorem C14_no_discard : forall cap tr s, run cap init tr = Some s -> forall t, 
 Proof. exact no_discard. Qed.
 Print Assumptions C14_no_discard.
 
+(* ... and none contains a 204/202 answer of patch_port_value for a value that was not handed to the write queue
+   ([ApiUnqueued]): together with C14_submitter_level, every API write answered 2xx was started at the driver *)
+Theorem C14_api_accepted_is_queued :
+  forall cap tr s, run cap init tr = Some s -> forall e, In e tr -> is_side_exit e = false.
+Proof. exact no_side_exit. Qed.
+Print Assumptions C14_api_accepted_is_queued.
+
 (* the executable specification that is run against the implementation holds of every accepted trace *)
 Theorem C14_spec_holds_of_accepted :
   forall cap tr s, run cap init tr = Some s -> spec_code cap false tr = 0.
